@@ -219,3 +219,99 @@ def check_C16(ctx):
                       "nil/identity/reverse/rotate/random manglers, VisitItemsRandom repeated; verdict = ExactlyOnce evaluated by TLC; "
                       "a case is one enumeration call",
                       ASSUME_COMMON, exhaustive=False)
+
+
+# ------------------------------------------------------------ C10 / C15
+def reclaim_cfg(keys, prios, maxmut, nsnap, nreader, depth, quiescent, maxver=10):
+    return """CONSTANTS
+  Keys = {%s}
+  Prios = {%s}
+  MaxMut = %d
+  NSnap = %d
+  NReader = %d
+  FixClose = 2
+  MaxVer = %d
+  AllowFail = FALSE
+  QuiescentClose = %s
+  Depth = %d
+SPECIFICATION GSpec
+INVARIANTS Safe NoReachableFree
+CONSTRAINT Emit
+CHECK_DEADLOCK FALSE
+""" % (",".join(map(str, keys)), ",".join(map(str, prios)), maxmut, nsnap, nreader, maxver,
+       "TRUE" if quiescent else "FALSE", depth)
+
+
+def reclaim_replay(ctx, hists, accept, cb, modes=("mem", "file"), closeall=True):
+    """Split the histories into chunks, replay each chunk on the real library
+    in its own process, validate every trace."""
+    lines = open(hists).read().splitlines()
+    nchunks = max(1, min(16, len(lines) // 400))
+    jobs = []
+    for mi, mode in enumerate(modes):
+        for c in range(nchunks):
+            part = lines[c::nchunks]
+            if not part:
+                continue
+            inp = os.path.join(ctx.work, "h-%s-%s-%d.jsonl" % (os.path.basename(hists), mode, c))
+            with open(inp, "w") as f:
+                f.write("\n".join(part) + "\n")
+            jobs.append((inp, mode, c + 100 * mi))
+    def one(j):
+        inp, mode, c = j
+        out = inp.replace(".jsonl", ".ndjson")
+        args = ["reclaim", "-seed", ctx.seed * 1000 + c, "-in", inp, "-out", out, "-cb", cb, "-mode", mode, "-prop", ctx.prop]
+        if not closeall:
+            args.append("-closeall=false")
+        st, poisoned = ctx.drive(args)
+        r = ctx.validate(out, accept, cmdline=" ".join(map(str, [ctx.bin] + args)))
+        if not any(out in json.dumps(v) for v in ctx.violations):
+            os.remove(out)
+        os.remove(inp)
+        return st
+    with ThreadPoolExecutor(max_workers=8) as ex:
+        return list(ex.map(one, jobs))
+
+
+def check_C10(ctx):
+    ctx.model_check("Reclaim.tla", q(ctx, "MC_Reclaim_q.cfg", "MC_Reclaim_t1.cfg"))
+    if ctx.tier == "thorough":
+        ctx.model_check("Reclaim.tla", "MC_Reclaim_t2.cfg", timeout=3000)
+    h1 = os.path.join(ctx.work, "hist-exh.jsonl")
+    ctx.generate("Gen_Reclaim.tla", "gen.cfg", reclaim_cfg([1, 2], [1, 2], 4, 1, 1, q(ctx, 4, 5), False), h1)
+    reclaim_replay(ctx, h1, {"C10", "C04"}, 0, modes=q(ctx, ("mem",), ("mem", "file")))
+    h2 = os.path.join(ctx.work, "hist-sim.jsonl")
+    ctx.generate("Gen_Reclaim.tla", "gen.cfg", reclaim_cfg([1, 2, 3], [1, 2], 7, 2, 2, 10, False, maxver=14), h2,
+                 simulate=(q(ctx, 150, 4000), 11), limit=q(ctx, 900, 30000))
+    reclaim_replay(ctx, h2, {"C10", "C04"}, 0)
+    seq_traces(ctx, "snap", q(ctx, 3, 12), q(ctx, 10, 50), q(ctx, 150, 400), {"C10"}, seed_off=700)
+    return ctx.finish("model_checking",
+                      "exhaustive: Reclaim.tla (node-level transcription of union/split/join with reclaim marks, version refcounts, chain, "
+                      "free lists with id recycling) - Safe, NoReachableFree, RefsAreHolders, no double free; behaviours: every history of "
+                      "the Reclaim alphabet to the depth bound plus simulated deeper ones are replayed on the real library (memory and "
+                      "file-backed); after every step every open handle is observed (API / introspection) and no node reachable from a live "
+                      "handle may be on the free list; in-flight visits must deliver the contents at their start; followed by unrelated "
+                      "allocation in another store; non-trivial = history with >= 1 release of a handle or reader",
+                      ASSUME_COMMON + ["free-list and reachability facts come from the verif-tag introspection functions"])
+
+
+def check_C15(ctx):
+    ctx.model_check("Reclaim.tla", q(ctx, "MC_Reclaim_leak_q.cfg", "MC_Reclaim_leak_t.cfg"))
+    refcb = 4 | 8 | 16
+    h1 = os.path.join(ctx.work, "hist-exh.jsonl")
+    ctx.generate("Gen_Reclaim.tla", "gen.cfg", reclaim_cfg([1, 2], [1, 2], 4, 1, 1, q(ctx, 4, 5), True), h1)
+    reclaim_replay(ctx, h1, {"C15"}, refcb, modes=q(ctx, ("file",), ("mem", "file")))
+    h2 = os.path.join(ctx.work, "hist-sim.jsonl")
+    ctx.generate("Gen_Reclaim.tla", "gen.cfg", reclaim_cfg([1, 2, 3], [1, 2], 7, 2, 2, 10, True, maxver=14), h2,
+                 simulate=(q(ctx, 150, 3000), 11), limit=q(ctx, 900, 20000))
+    reclaim_replay(ctx, h2, {"C15"}, refcb)
+    seq_traces(ctx, "refs", q(ctx, 4, 12), q(ctx, 10, 50), q(ctx, 150, 400), {"C15"}, cb=refcb, seed_off=800)
+    return ctx.finish("model_checking",
+                      "exhaustive: Reclaim.tla with AllClosedAllFree (a node holds one item reference from mkNode to freeNode; with every "
+                      "handle closed at quiescent moments every node must have been freed) and NoReachableFree (no premature release); "
+                      "conformance: behaviours of the model and random histories (lookups, visits, evictions, flushes, reopens, snapshots, "
+                      "closes) replayed with counting ItemAlloc/ItemAddRef/ItemDecRef callbacks; counts never negative, positive for every "
+                      "item handed out or reachable (introspection), zero once everything is closed",
+                      ASSUME_COMMON + ["an ItemAlloc-ed item is born with one reference owned by gkvlite; Get()/Exist() are not driven here "
+                                       "because they keep the looked-up item's reference without handing the item to the caller",
+                                       "closing a store while a visit on it is still in flight is outside the contract (use after Close)"])
